@@ -352,7 +352,12 @@ def run_cases(shapes, eps):
 
 
 def tie(ctx):
-    eps = eps_from_source()
+    # the stop tolerance of the enumeration loop is read from the source; when the loop was rewritten so that the pattern no
+    # longer matches, that is a broken obligation (family `stop_tolerance`), and the runs are judged with the documented value
+    try:
+        eps, eps_note = eps_from_source(), None
+    except lib.ToolTrouble as e:
+        eps, eps_note = SPEC_EPS, str(e)
     r = lib.rng("c05")
     n = 400 if ctx["tier"] == "quick" else 6000
     shapes = []
@@ -369,7 +374,8 @@ def tie(ctx):
     outs = lib.driver_batch(reqs)
     fam = {"shape_structure": {"cases": 0, "disagreements": []},
            "valid_run": {"cases": 0, "disagreements": []},
-           "escape_name": {"cases": 0, "disagreements": []}}
+           "escape_name": {"cases": 0, "disagreements": []},
+           "stop_tolerance": {"cases": 1, "disagreements": [{"why": "stop test of the enumeration loop no longer has the documented form: " + eps_note[:300]}] if eps_note else []}}
     violations = []
     stats = {"yields": 0, "models_with_gap": 0, "models_with_limit": 0, "infeasible": 0, "with_prod": 0, "multi_yield": 0,
              "weird_names": 0, "with_general_integers": 0, "bins_hist": {}, "npoints_hist": {}}
